@@ -39,9 +39,19 @@ var badIntPool = []string{"abc", "1.5", "9223372036854775808", "-922337203685477
 var floatPool = []string{"1", "-0", "0", "1.5", "-2.25", "1e308", "+inf", "-inf", "inf", "3.14159", "0x1p-2", ".5", "1e-7", "100", "9007199254740993", "4.9e-324", "+Inf", "Infinity"}
 var badFloatPool = []string{"abc", "", "(", "1.5.2", "--1", "1e", "0x", " 1"}
 
+// meaningWords are argument values that mean something somewhere else in the framework: command names, option
+// words, the texts of its sentinel errors, the configuration parameters the server reads itself (in several letter
+// cases). As plain argument values they are just bytes.
+var meaningWords = []string{"QUIT", "quit", "AUTH", "PING", "SELECT", "CONFIG", "GET", "SET", "NX", "XX", "EX", "LIMIT", "MATCH", "COUNT", "WITHSCORES",
+	"not supported", "internal system error", "not authrized", "invalid", "EOM", "OK", "PONG",
+	"port", "Port", "PORT", "requirepass", "RequirePass", "REQUIREPASS", "tls-port", "Tls-Port", "TLS-PORT", "tls-cert-file", "TLS-Key-File", "tls-ca-cert-file"}
+
 func gS(r *Rng) []byte {
 	if r.Chance(1, 12) {
 		return r.Bytes(1 + r.Intn(8))
+	}
+	if r.Chance(1, 14) {
+		return []byte(meaningWords[r.Intn(len(meaningWords))])
 	}
 	if r.Chance(1, 40) {
 		return []byte(strings.Repeat("x", 300))
@@ -480,18 +490,27 @@ func genRequest(r *Rng, cmd string) *treq {
 		b.add('I', []byte(strconv.Itoa(r.Intn(16))), true)
 	case "QUIT":
 	case "CONFIG":
+		if r.Chance(1, 8) {
+			// an unknown sub-command (an error reply that carries the word)
+			w := meaningWords[r.Intn(len(meaningWords))]
+			for strings.EqualFold(w, "GET") || strings.EqualFold(w, "SET") {
+				w = meaningWords[r.Intn(len(meaningWords))]
+			}
+			b.add('o', []byte(w), true)
+			return t
+		}
 		if r.Bool() {
 			b.add('o', randCase(r, "SET"), true)
 			n := 1 + r.Intn(3)
 			for i := 0; i < n; i++ {
-				b.add('K', []byte([]string{"appendonly", "save", "maxmemory", "x"}[r.Intn(4)]), i == 0)
+				b.add('K', []byte([]string{"appendonly", "save", "maxmemory", "x", "Timeout", "Tls-Port", "TLS-CERT-FILE", "Port2"}[r.Intn(8)]), i == 0)
 				b.add('V', gS(r), true)
 			}
 		} else {
 			b.add('o', randCase(r, "GET"), true)
 			n := 1 + r.Intn(3)
 			for i := 0; i < n; i++ {
-				b.add('L', []byte([]string{"appendonly", "save", "maxmemory", "x", "port"}[r.Intn(5)]), i == 0)
+				b.add('L', []byte([]string{"appendonly", "save", "maxmemory", "x", "port", "Timeout", "Tls-Port", "TLS-CERT-FILE", "Port2", "tls-port"}[r.Intn(10)]), i == 0)
 			}
 		}
 	case "AUTH":
@@ -730,7 +749,14 @@ func genScript(r *Rng, n int, wild bool) string {
 		case 9:
 			parts = append(parts, "r z")
 		case 10:
-			parts = append(parts, "e "+hx([]byte("boom\r\n+OK\r\n")))
+			switch r.Intn(3) {
+			case 0:
+				parts = append(parts, "e "+hx([]byte("boom\r\n+OK\r\n")))
+			case 1:
+				parts = append(parts, "e "+hx([]byte(utf8Traps[r.Intn(len(utf8Traps))])))
+			default:
+				parts = append(parts, "r s:"+hx([]byte(utf8Traps[r.Intn(len(utf8Traps))])))
+			}
 		case 11:
 			switch r.Intn(4) {
 			case 0:
